@@ -1655,7 +1655,13 @@ func (it *Interp) rawStructural(b *Backend, a *Op) {
 	case "removeEntity":
 		b.W.RemoveEntity(h)
 	case "removeEntities":
-		b.W.RemoveEntities(b.all.Batch(), nil)
+		b.W.RemoveEntities(it.nestedBatch(b, a), nil)
+	case "mapAddBatch":
+		b.Mapper(a.M).AddBatch(it.nestedBatch(b, a), make([]int64, len(MapInsts[a.M].Comps)), nil)
+	case "mapRemoveBatch":
+		b.Mapper(a.M).RemoveBatch(it.nestedBatch(b, a), nil)
+	case "exBatch":
+		b.Exchanger(a.M, nil).AddBatch(it.nestedBatch(b, a), make([]int64, len(ExInsts[a.M].Comps)), nil)
 	case "setRel":
 		b.U.SetRelations(h, b.urels(a.Rels)...)
 	case "reset":
@@ -1673,6 +1679,17 @@ func (it *Interp) rawStructural(b *Backend, a *Op) {
 	default:
 		panic("unknown nested action " + a.K)
 	}
+}
+
+// nestedBatch returns the batch of a nested attempt: of model filter a.F if a.Sub == "f", else of all entities.
+func (it *Interp) nestedBatch(b *Backend, a *Op) ecs.Batch {
+	if a.Sub == "f" && a.F >= 0 && a.F < len(it.M.Filters) && a.F < len(b.flt) && b.flt[a.F] != nil {
+		f := it.M.Filters[a.F]
+		if f.Inst >= 0 && !f.Stale {
+			return b.flt[a.F].Batch(b.rels(f.List(), nil))
+		}
+	}
+	return b.all.Batch()
 }
 
 func sortedInts(m map[int]bool) []int {
